@@ -20,6 +20,10 @@ class PathLimit(Exception):
     pass
 
 
+class CostCap(Exception):
+    """a per-path invocation cap set by the harness was exceeded (used by the cost property)"""
+
+
 class Interp:
     def __init__(self, bodies, models, consts, env=None, max_paths=200000, timeout_s=None):
         self.bodies, self.models, self.consts = bodies, models, consts
@@ -50,6 +54,7 @@ class Interp:
             self.path_calls = {}
             self.fresh_n = 0
             self.path_log = []
+            self.decided = {}
             self.stats['paths'] += 1
             if self.stats['paths'] > self.max_paths:
                 raise PathLimit(f'more than {self.max_paths} paths')
@@ -60,6 +65,8 @@ class Interp:
                 results.append((list(self.pc), 'ok', out, dict(self.path_calls)))
             except Panic as p:
                 results.append((list(self.pc), 'panic', str(p), dict(self.path_calls)))
+            except CostCap as p:
+                results.append((list(self.pc), 'cost', str(p), dict(self.path_calls)))
         return results
 
     def fresh(self, name, sort):
@@ -91,6 +98,11 @@ class Interp:
             if o is True or (is_sym(o) and z3.is_true(o)):
                 return i
         live = [i for i, o in enumerate(opts) if not (o is False or (is_sym(o) and z3.is_false(o)))]
+        # the same question asked again on this path (e.g. a symbolic handle indexed twice) has the same answer
+        key = tuple(o.get_id() if is_sym(o) else o for o in opts)
+        hit = self.decided.get(key)
+        if hit is not None:
+            return hit
         if self.pos < len(self.prefix):
             i = self.prefix[self.pos]
         else:
@@ -103,6 +115,9 @@ class Interp:
         self.dec.append(i)
         self.pos += 1
         self.pc.append(opts[i])
+        self.decided[key] = i
+        self._keep = getattr(self, '_keep', [])
+        self._keep.append(opts)          # keep the ASTs alive so that ids stay unique
         return i
 
     def truth(self, b):
@@ -125,7 +140,10 @@ class Interp:
     # ---- calls -------------------------------------------------------------------------------
     def count(self, name):
         self.stats['calls'][name] = self.stats['calls'].get(name, 0) + 1
-        self.path_calls[name] = self.path_calls.get(name, 0) + 1
+        n = self.path_calls[name] = self.path_calls.get(name, 0) + 1
+        caps = self.env.get('call_caps')
+        if caps and name in caps and n > caps[name]:
+            raise CostCap(f'{name} entered more than {caps[name]} times on one path')
 
     def call(self, name, args):
         body = self.bodies.get(name)
